@@ -2,6 +2,22 @@ use crate::error::{ToSqlError, ToSqlResult};
 
 pub trait SqlBuilder {
     fn to_sql(self: Box<Self>) -> ToSqlResult<String>;
+
+    /// True when the generated text is `operand operator operand` with no delimiter of
+    /// its own, so that a postfix (`::type`, `[index]`, `(args)`) would bind to its last
+    /// operand only.
+    fn is_compound(&self) -> bool {
+        false
+    }
+}
+
+/// SQL of the left operand of a postfix construct, parenthesised when it would regroup.
+fn postfix_operand(builder: Box<dyn SqlBuilder>) -> ToSqlResult<String> {
+    if builder.is_compound() {
+        Ok(format!("({})", builder.to_sql()?))
+    } else {
+        builder.to_sql()
+    }
 }
 
 pub trait IntoSqlBuilder {
@@ -55,6 +71,10 @@ impl SqlBuilder for BinaryOperationBuilder {
             self.operator.to_sql()?,
             self.rhs.to_sql()?
         ))
+    }
+
+    fn is_compound(&self) -> bool {
+        true
     }
 }
 
@@ -122,7 +142,7 @@ impl SqlBuilder for FunctionCallBuilder {
     fn to_sql(self: Box<Self>) -> ToSqlResult<String> {
         Ok(format!(
             "{}({})",
-            self.primary.to_sql()?,
+            postfix_operand(self.primary)?,
             self.args
                 .into_iter()
                 .map(|a| a.to_sql())
@@ -141,7 +161,7 @@ impl SqlBuilder for CastBuilder {
     fn to_sql(self: Box<Self>) -> ToSqlResult<String> {
         Ok(format!(
             "{}::{}",
-            self.value.to_sql()?,
+            postfix_operand(self.value)?,
             self.cast_type.to_sql()?
         ))
     }
@@ -188,6 +208,10 @@ impl SqlBuilder for JsonMemberAccessBuilder {
             ))
         }
     }
+
+    fn is_compound(&self) -> bool {
+        true
+    }
 }
 
 pub struct ArrayBuilder {
@@ -220,7 +244,7 @@ impl SqlBuilder for ArrayAccessBuilder {
     fn to_sql(self: Box<Self>) -> ToSqlResult<String> {
         Ok(format!(
             "({}[{}])",
-            self.array.to_sql()?,
+            postfix_operand(self.array)?,
             self.member.to_sql()?
         ))
     }
